@@ -108,25 +108,28 @@ def main():
     inconclusive = []
     workspaces = []
     digest = None
+    jobs = []
     try:
         for u in units:
             ws = scratch.Workspace(
                 u["config"], u["inject"], features=u.get("features", ()), gen=u.get("gen_fn") and (lambda hd, u=u: u["gen_fn"](hd, tier)), keep=a.keep,
             )
             workspaces.append(ws)
+            u["ws"] = ws
             digest = ws.digest
             if not ws.prepare_lock(mainlog):
                 inconclusive.append("cargo could not resolve the scratch workspace offline")
                 continue
             u["meta"] = u["load_meta"](ws.hdir) if u.get("load_meta") else None
             hs = u["harnesses"](tier, u["meta"])
+            u["hs"] = hs
             seed_target = os.path.join(scratch.CACHE, "kani-target-" + u["config"] + ("-" + "-".join(u.get("features", ())) if u.get("features") else ""))
-            rs = kani.run_many(
-                ws, hs, u.get("timeout", {}).get(tier, 900), os.path.join(logroot, "kani"), jobs=a.jobs,
-                extra=u.get("extra", ()), seed_target=seed_target, mem_kb=u.get("mem_kb", 24_000_000),
-            )
-            for r in rs:
-                all_results.append((u, r))
+            for h in hs:
+                jobs.append(dict(ws=ws, harness=h, timeout=u.get("timeout", {}).get(tier, 900), extra=u.get("extra", ()),
+                                 mem_kb=u.get("mem_kb", 24_000_000), weight=u.get("weight", 2), seed_target=seed_target, unit=u))
+        res = kani.run_pool(jobs, os.path.join(logroot, "kani"), capacity=a.jobs)
+        for j in jobs:
+            all_results.append((j["unit"], res[(id(j["ws"]), j["harness"])]))
     except RuntimeError as e:
         inconclusive.append("workspace: %s" % e)
 
@@ -148,7 +151,10 @@ def main():
         if r.status == "SUCCESSFUL":
             continue
         if r.status == "FAILED":
-            rel = [f for f in r.failed if prop in tags_of(f[1], u.get("panic_tags", ["C13"]))]
+            ha = [f for f in r.failed if "HARNESS-ASSUMPTION" in f[1] or "model capacity" in f[1] or "http model:" in f[1]]
+            if ha:
+                inconclusive.append("%s: a harness/model assumption does not hold on this tree: %s" % (r.name, ha[0][1][:160]))
+            rel = [f for f in r.failed if f not in ha and prop in tags_of(f[1], u.get("panic_tags", ["C13"]))]
             if rel:
                 relevant_fail.append((u, r, rel))
             else:
@@ -178,6 +184,29 @@ def main():
                         mainlog.write("decode error %s: %s\n" % (r.name, e))
                     if scn is None:
                         continue
+                    if isinstance(scn, list):
+                        scns = scn
+                    else:
+                        scns = [scn]
+                    for scn in scns:
+                      key = json.dumps(scn, sort_keys=True)
+                      if key in seen:
+                        confirmed_here = confirmed_here or key in {json.dumps(v[0], sort_keys=True) for v in violations}
+                        continue
+                      seen.add(key)
+                      outs = {p: rp.run(scn, p) for p in ("debug", "release")}
+                      for profile, out in outs.items():
+                        for nv in out.get("violations", []) or []:
+                            if prop in nv.get("properties", [nv.get("property")]):
+                                k = known_match(known, prop, scn, nv)
+                                if k:
+                                    known_hits.append((k, nv))
+                                else:
+                                    violations.append((scn, nv, profile, r.name, [f[1] for f in rel]))
+                                confirmed_here = True
+                        if out.get("error"):
+                            mainlog.write("replay error (%s) %s: %s\n" % (profile, r.name, out["error"]))
+                    continue
                     key = json.dumps(scn, sort_keys=True)
                     if key in seen:
                         confirmed_here = confirmed_here or key in {json.dumps(v[0], sort_keys=True) for v in violations}
